@@ -220,7 +220,7 @@ def tlc(module, cfg, workers=8, timeout=3600, simulate=None, depth=None, env=Non
         cmd += ["-deadlock"]
     cmd.append(os.path.join(SPEC, module))
     e = dict(os.environ)
-    jopts = "-Xss512m"
+    jopts = "-Xss" + os.environ.get("VERIF_TLC_XSS", "128m")
     if extra_java:
         jopts += " " + extra_java
     e["JAVA_TOOL_OPTIONS"] = jopts
